@@ -72,6 +72,10 @@ void RescaledHmmLikelihood::setNamespace(const std::string& nameSpace)
 
 void RescaledHmmLikelihood::fireParameterChanged(const ParameterList& pl)
 {
+  // Cached derivatives are no longer valid:
+  dVariable_ = "";
+  d2Variable_ = "";
+
   bool alphabetChanged    = hiddenAlphabet_->matchParametersValues(pl);
   bool transitionsChanged = transitionMatrix_->matchParametersValues(pl);
   bool emissionChanged    = emissionProbabilities_->matchParametersValues(pl);
@@ -411,7 +415,7 @@ void RescaledHmmLikelihood::computeDForward_() const
 
   for (size_t j = 0; j < nbStates_; j++)
   {
-    dLikelihood_[0][j] = (dTmp[j] * scales_[0] - tmp[j] * dScales_[0]) / pow(scales_[0], 2);
+    dLikelihood_[0][j] = dTmp[j] / scales_[0] - (tmp[j] / scales_[0]) * (dScales_[0] / scales_[0]);
   }
 
   // Recursion:
@@ -467,7 +471,7 @@ void RescaledHmmLikelihood::computeDForward_() const
 
     for (size_t j = 0; j < nbStates_; j++)
     {
-      dLikelihood_[i][j] = (dTmp[j] * scales_[i] - tmp[j] * dScales_[i]) / pow(scales_[i], 2);
+      dLikelihood_[i][j] = dTmp[j] / scales_[i] - (tmp[j] / scales_[i]) * (dScales_[i] / scales_[i]);
     }
   }
 
@@ -490,6 +494,9 @@ double RescaledHmmLikelihood::getDLogLikelihoodForASite(size_t site) const
 
 void RescaledHmmLikelihood::computeD2Forward_() const
 {
+  // Make sure that first order derivatives are available for this variable:
+  getFirstOrderDerivative(d2Variable_);
+
   // Init arrays:
   if (d2Likelihood_.size() == 0)
   {
@@ -528,8 +535,10 @@ void RescaledHmmLikelihood::computeD2Forward_() const
 
   for (size_t j = 0; j < nbStates_; j++)
   {
-    d2Likelihood_[0][j] = d2Tmp[j] / scales_[0] - (d2Scales_[0] * tmp[j] + 2 * dScales_[0] * dTmp[j]) / pow(scales_[0], 2)
-        +  2 * pow(dScales_[0], 2) * tmp[j] / pow(scales_[0], 3);
+    d2Likelihood_[0][j] = d2Tmp[j] / scales_[0]
+        - (d2Scales_[0] / scales_[0]) * (tmp[j] / scales_[0])
+        - 2 * (dScales_[0] / scales_[0]) * (dTmp[j] / scales_[0])
+        + 2 * pow(dScales_[0] / scales_[0], 2) * (tmp[j] / scales_[0]);
   }
 
   // Recursion:
@@ -541,7 +550,7 @@ void RescaledHmmLikelihood::computeD2Forward_() const
 
   for (size_t i = 1; i < nbSites_; i++)
   {
-    dScales_[i] = 0;
+    d2Scales_[i] = 0;
 
     emissions = &(*emissionProbabilities_)(i);
     dEmissions = &emissionProbabilities_->getDEmissionProbabilities(i);
@@ -589,14 +598,16 @@ void RescaledHmmLikelihood::computeD2Forward_() const
 
     for (size_t j = 0; j < nbStates_; j++)
     {
-      d2Likelihood_[i][j] = d2Tmp[j] / scales_[i] - (d2Scales_[i] * tmp[j] + 2 * dScales_[i] * dTmp[j]) / pow(scales_[i], 2)
-          +  2 * pow(dScales_[i], 2) * tmp[j] / pow(scales_[i], 3);
+      d2Likelihood_[i][j] = d2Tmp[j] / scales_[i]
+          - (d2Scales_[i] / scales_[i]) * (tmp[j] / scales_[i])
+          - 2 * (dScales_[i] / scales_[i]) * (dTmp[j] / scales_[i])
+          + 2 * pow(dScales_[i] / scales_[i], 2) * (tmp[j] / scales_[i]);
     }
   }
 
   greater<double> cmp;
   sort(d2LScales.begin(), d2LScales.end(), cmp);
-  dLogLik_ = 0;
+  d2LogLik_ = 0;
   for (size_t i = 0; i < nbSites_; ++i)
   {
     d2LogLik_ += d2LScales[i];
